@@ -246,6 +246,13 @@ impl TableProvider for ShardedParquetTable {
         let mut scaled = base.clone();
         scaled.row_count = self.rows.max(0) as usize;
         scaled.total_byte_size = self.bytes;
+        // A shard does not know how many distinct values ITS rows hold. The
+        // table-wide estimate next to the shard's row count makes every column
+        // of a small enough shard look like a unique key (`ndv_est >=
+        // row_count`), and GroupKeyReduction then drops group keys on workers.
+        for cs in scaled.column_stats.values_mut() {
+            cs.ndv_est = None;
+        }
         Some(scaled)
     }
 
